@@ -10,8 +10,8 @@ package main
 //   guard  - the limit / overflow test the statement makes when it is an `if … { … return … }` without else:
 //              "OverflowInt" / "OverflowUint" / "OverflowFloat"   (a call of that reflect method in the condition)
 //              "len > .maxSliceLen", "_ > .maxMapSize", "_ > .maxDepth" …   (a comparison of a configuration limit with
-//              something that is not the literal 0: "len" = len(<local>), "_" = a local; the operator as written,
-//              the limit always printed on the side where it stands)
+//              something that is not the literal 0: "len" = len(<local>), "_" = a local; the limit always printed on
+//              the right, `limit < x` as `x > limit`)
 //            also when the test sits inside `if <cfg>.<limit> > 0 { …; if <test> { … return … } }` (0 = no limit);
 //            "" otherwise
 //   calls  - the calls of the vocabulary and the assignments to configuration fields ("=.skipDefaults") that occur
@@ -184,7 +184,9 @@ func bfTest(cond ast.Expr) (string, bool) {
 					if bfIsZero(x.Y) {
 						positivity = true
 					} else {
-						tests = append(tests, "."+f+" "+x.Op.String()+" "+bfSide(x.Y))
+						// the limit always on the right: `.f < x` is `x > .f`
+						flip := map[token.Token]string{token.GTR: "<", token.GEQ: "<=", token.LSS: ">", token.LEQ: ">="}
+						tests = append(tests, bfSide(x.Y)+" "+flip[x.Op]+" ."+f)
 					}
 				}
 			}
